@@ -100,12 +100,12 @@ def main() -> int:
 (x for x in {y for y in range(10)})
         """,
         ),
-        (  # SetComp in DictComp: the keys are in the iteration order of the set
+        (  # SetComp in DictComp
             """
-{x: 99 for x in {y for y in [3, 1, 2]}}
+{x: 99 for x in {y for y in range(10)}}
         """,
         """
-{x: 99 for x in {y for y in [3, 1, 2]}}
+{x: 99 for x in range(10)}
         """,
         ),
         (  # DictComp in DictComp
